@@ -79,6 +79,16 @@ ViableIn(adm, g, sel, c) == {o \in Opts(g, c) : \E A \in adm : Extends(A, sel) /
 ExtensionExists(adm, sel) == \E A \in adm : Extends(A, sel)
 
 (***************************************************************************)
+(* Connection choices: the choice node is connected from its source        *)
+(* connectors, so it exists in an architecture iff some source does.       *)
+(***************************************************************************)
+CcSrc(g, k) == SeqSet(g.cc[k].src)
+CcTgt(g, k) == SeqSet(g.cc[k].tgt)
+ConnActive(g, A, k) == CcSrc(g, k) \cap A.nodes # {}
+\* placeholder until the connection semantics (ConnSem) is imported: a description without connection choices
+ConnFeasibleArch(g, A) == TRUE
+
+(***************************************************************************)
 (* The edges an architecture consists of (as a set of pairs): declared     *)
 (* derivation edges inside it, origin -> selected option, member -> group. *)
 (***************************************************************************)
